@@ -366,7 +366,7 @@ def run(model, tier="quick"):
 
 
 MANIFEST = {
-    "technique": "object-freshness (escape / sharing) analysis of the launch paths, cell-object mutation (alias) analysis of the shared data, ledger identity of Broker.add_market",
+    "technique": "object-freshness (escape / sharing) analysis of the launch paths, cell-object mutation (alias) analysis of the shared data, ledger identity of Broker.add_market and Strategy.add_column, world assumptions (R-WORLD: definitions are what runs)",
     "claim": "On all launch paths the market objects a strategy runs with are fresh for it: deep-copied, or pickled PER TASK "
              "(apply_async; the chunked map/starmap family is not a per-task boundary unless chunksize=1); launchers use only "
              "their own parameters, _start builds and keeps a private Actuator, the module has no other mutable globals, "
